@@ -330,7 +330,33 @@ pub fn t3(prop: &str, seed: u64) -> RunDesc {
     if frozen_upgrade {
         d.cfg.stall = Some(StallCfg { victim: 2, site: site::NOT_DESTRUCTED_CAS, nth: 1, k: 0, release_signal: 5 });
     }
-    d.params = J::obj().set("upgrader_frozen_before_its_cas", frozen_upgrade).set("template", "T3 upgrade racing destruction").set("child_in_parent", child_in_parent).set("link_age_rounds", age).set("upgrader_acts_during_pop_edges", in_destructor).set("two_owners_released_at_once", two_owners).set("weak_hammer", weak_hammer);
+    // fault: the thread that runs the cascade is frozen right before the compare-exchange that
+    // marks the child destructed (it has read a count of zero); an upgrader that waited for the
+    // parent's pop_edges then upgrades and keeps its Snapshot, and only then is the cascade let go
+    let frozen_cascade = !frozen_upgrade && child_in_parent && !in_destructor && !weak_hammer && Rng::new(seed ^ 0x3D).chance(0.35);
+    if frozen_cascade {
+        d.cfg.signal_pop_class = 1;
+        let retire_idx = d.threads.iter().position(|t| t.name == "retire").unwrap() as u32;
+        d.cfg.stall = Some(StallCfg { victim: retire_idx, site: site::TRY_DESTRUCT_CAS, nth: 2, k: 0, release_signal: 7 });
+        let v = vec![
+            o(K::Pin, 0, 0, 0, 0),
+            o(K::LoadW, WROOT0, 0, 0, 0),
+            o(K::WsCounted, 0, 0, 0, 0),
+            o(K::Unpin, 0, 0, 0, 0),
+            o(K::Await, 9, 0, 0, 0),
+            o(K::Pin, 1, 0, 0, 0),
+            o(K::WSnapOf, 0, 1, 1, 0),
+            o(K::WsUpgrade, 1, 1, 0, 0),
+            o(K::DerefSnap, 1, 0, 0, 0),
+            o(K::Signal, 7, 0, 0, 0),
+            o(K::Await, 5, 0, 0, 0),
+            o(K::DerefSnap, 1, 0, 0, 0),
+            o(K::Unpin, 1, 0, 0, 0),
+            o(K::DropW, 0, 0, 0, 0),
+        ];
+        d.threads.push(thread(2, "upgrader-while-cascade-frozen", v));
+    }
+    d.params = J::obj().set("upgrader_frozen_before_its_cas", frozen_upgrade).set("cascade_frozen_before_marking_the_child", frozen_cascade).set("template", "T3 upgrade racing destruction").set("child_in_parent", child_in_parent).set("link_age_rounds", age).set("upgrader_acts_during_pop_edges", in_destructor).set("two_owners_released_at_once", two_owners).set("weak_hammer", weak_hammer);
     d
 }
 
